@@ -40,6 +40,7 @@ class Sut:
         self.meta = []         # {'kind','name','version','ec'}
         self.alive = True      # twin mode: False once this twin rejected an op the other accepted
         self.last_exc = None
+        self.held = {}         # handles kept by the program across operations (op 'hold')
 
     # ---- construction ----
     def make_root(self, spec):
@@ -163,6 +164,12 @@ class Sut:
         if 'bdt' in v:
             dt, text = v['bdt']
             return datatype_factory(dt, text, self.meta[op.get('root', 0)]['version'], self.level)
+        if 'elem' in v:
+            sri, spath = v['elem']
+            e = self.nav(sri, spath)
+            if e.__class__.__name__ == 'ElementProxy':
+                raise NavError('no element at that path')
+            return e
         if 'obj' in v:
             return {'int': 5, 'none_list': [None], 'dict': {}}[v['obj']]
         raise ValueError(v)
@@ -202,10 +209,43 @@ class Sut:
                        'sub': core.SubComponent}[op.get('cls') or step[0]]
                 kw = {'version': op.get('version') or self.meta[ri]['version'],
                       'validation_level': op.get('level') or self.level}
+                if op.get('datatype'):
+                    kw['datatype'] = op['datatype']
+                if P.__class__.__name__ == 'ElementProxy':
+                    raise NavError('no parent at that path')
+                if via == 'parent_kw':
+                    kw['parent'] = P                 # attached by the constructor itself
+                    c = cls(name, **kw)
+                    return None
                 c = cls(name, **kw)
                 if op.get('text') is not None:
                     c.value = op['text']
-                P.add(c)
+                if via == 'parent_attr':
+                    c.parent = P
+                else:
+                    P.add(c)
+            return None
+        if k == 'detach':
+            e = self.nav(ri, op['p'])
+            if e.__class__.__name__ == 'ElementProxy':
+                raise NavError('no element at that path')
+            e.parent = None
+            return None
+        if k == 'hold':
+            cur = self.roots[ri]
+            ctxs = self.ctx_path(ri, op['p'])
+            for i, (t, key, r, sp) in enumerate(op['p']):
+                attr = HN.spell(ctxs[i], ctxs[i + 1], t, key, sp)
+                cur = getattr(cur, attr)          # proxies all the way: nothing is indexed
+                if cur is None:
+                    raise NavError('no child %s' % attr)
+            self.held[op['reg']] = cur
+            return None
+        if k == 'held_value':
+            h = self.held.get(op['reg'])
+            if h is None:
+                raise NavError('nothing held in register %r' % op['reg'])
+            h.value = op['text']
             return None
         if k == 'del':
             P = self.nav(ri, op['p'])
@@ -514,7 +554,7 @@ class HistoryWorld:
                 text = v['bdt'][1]
                 new = EM.node_from_text(t, key, text, ec)
             else:
-                return 'lost'
+                return 'lost'      # ('elem': an attached element assigned as is -- only C10/C12 apply)
             if via == 'childitem':
                 ci = op['ci']
                 if not (0 <= ci < len(parent.kids)):
@@ -528,7 +568,7 @@ class HistoryWorld:
             t, key, r, sp = op['c']
             parent, _ = EM.ensure_path(root, mpath)
             if op.get('text') is not None:
-                new = EM.node_from_text(t, key, op['text'], corpus._ec(0) if op.get('via') == 'inst' else ec)
+                new = EM.node_from_text(t, key, op['text'], corpus._ec(0) if op.get('via') in ('inst', 'parent_attr') else ec)
             else:
                 new = EM.Node(t, key)
             EM.op_add(parent, new)
@@ -552,7 +592,16 @@ class HistoryWorld:
             new = EM.node_from_text(kind, node.key, op['text'], ec)
             node.kids = new.kids
             return done()
-        if k in ('read', 'validate', 'mkroot'):
+        if k == 'detach':
+            if not mpath:
+                return 'lost'
+            parent = EM.resolve(root, mpath[:-1])
+            if parent is None:
+                return 'lost'
+            t, key, r = mpath[-1]
+            EM.op_del(parent, t, key, r)
+            return done()
+        if k in ('read', 'validate', 'mkroot', 'hold'):
             return (0, 0)
         return 'lost'
 
@@ -636,7 +685,7 @@ class HistoryWorld:
                 continue
             read_like = op['k'] in ('read', 'validate')
             before = s.snapshot(with_validate=read_like and op.get('deep', True))
-            ids_before = s.all_ids() if op['k'] in ('set', 'add', 'value') else None
+            ids_before = s.all_ids() if op['k'] in ('set', 'add', 'value') and op.get('via') not in ('parent_kw', 'parent_attr') else None
             self.fs.reset()
             try:
                 ret = s.apply(op)
@@ -681,7 +730,11 @@ class HistoryWorld:
     def op_key(self, op):
         k = op['k']
         if k in ('set', 'del', 'add'):
-            return '%s/%s/%s' % (k, op.get('via', 'attr' if k != 'add' else 'factory'), op['c'][0] if 'c' in op else '-')
+            extra = ''
+            if k == 'set':
+                v = op.get('v') or {}
+                extra = ':bdt' if 'bdt' in v else (':elem' if 'elem' in v else '')
+            return '%s/%s/%s%s' % (k, op.get('via', 'attr' if k != 'add' else 'factory'), op['c'][0] if 'c' in op else '-', extra)
         if k == 'read':
             return 'read/%s' % op['what']
         if k == 'validate':
@@ -790,9 +843,9 @@ class HistoryWorld:
             else:
                 what = 'children changed'
             site = _raise_site(exc)
-            self.violate('C12.atomic', 'rejected %s (%s, %s at %s): %s' % (
-                self.op_key(op), cause, type(exc).__name__, site, what),
-                '%s root %d before=%r after=%r' % (s.tag, ri, _short(b[:2]), _short(a[:2])), step)
+            self.violate('C12.atomic', 'rejected %s (%s): %s' % (self.op_key(op), cause, what),
+                         '%s root %d %s raised at %s; before=%r after=%r' % (
+                             s.tag, ri, type(exc).__name__, site, _short(b[:2]), _short(a[:2])), step)
             break
 
     # ---- C05: twins ----
